@@ -68,6 +68,11 @@ def run(P, R, tier):
             n13 += 1
             R._add('C12.a', (o.path, o.site.split('::')[-1]), None, o.status, f'[{o.rule}] the recorded extent of a partition is the extent of its own rows: ' + o.detail, construct=o.construct, nontrivial=o.nontrivial)
     R.floor('C12.a', 'array extent obligations (C13)', n13, 6)
+    from rules import C16 as _C16x
+    sub16 = type(R)('C16', 'quick')
+    _C16x.bitmap_small_scope(P, sub16, P.func('spatialpandas.geometry.base', '_extract_isnull_bytemap'))
+    for o in sub16.obs:
+        R._add('C12.a', (o.path, o.site.split('::')[-1]), None, o.status, '[C16.a] the extent of a partition of points is masked by isna(): every row of a slice is read from its own validity bit: ' + o.detail, construct=o.construct, nontrivial=o.nontrivial)
     _common0.class_level_mutable_state(P, R, 'C12.b', [P.cls('spatialpandas.dask.DaskGeoSeries'), P.cls('spatialpandas.dask.DaskGeoDataFrame')],
                                        'partition bounds / indexes cached by one frame are served to every other frame with a geometry column of that name, and written to their datasets')
     _common0.shared_mutable_defaults(P, R, 'C12.b', [w1, w2] + list(w2.nested.values()), 'the bounds of every geometry column are appended to one list, so each column records the interleaved bounds of all columns (and twice as many rows as partitions)')
